@@ -97,6 +97,28 @@ func (c *CoqFile) world(fed *Fed) string {
 
 func (c *CoqFile) vars(v map[string]interface{}) string { return c.JSONMap(v) }
 
+// varDefTexts prints variable definitions as (name, "Type = default @directives")
+func (c *CoqFile) varDefTexts(defs ast.VariableDefinitionList) string {
+	parts := []string{}
+	for _, vd := range defs {
+		if vd == nil {
+			continue
+		}
+		t := ""
+		if vd.Type != nil {
+			t = vd.Type.String()
+		}
+		if vd.DefaultValue != nil {
+			t += " = " + vd.DefaultValue.String()
+		}
+		for _, d := range vd.Directives {
+			t += " @" + d.Name
+		}
+		parts = append(parts, "("+c.S(vd.Variable)+", "+c.S(t)+")")
+	}
+	return "[" + strings.Join(parts, "; ") + "]"
+}
+
 // what a service received, analysed with gqlparser
 func (c *CoqFile) ocall(cl Call, sch *ast.Schema) string {
 	declared, used, defs, spreads := []string{}, []string{}, []string{}, []string{}
@@ -506,6 +528,8 @@ func runFed(cfg *runCfg, prop string) error {
 							dep := st.ParentType != "Query" && st.ParentType != "Mutation" && st.ParentType != "Subscription"
 							model += fmt.Sprintf(" && vars_agree %s %s %s %s %s %s", c.Sels(st.SelectionSet), c.Frags(st.FragmentDefinitions),
 								c.Strs(sv), c.Strs(varnames), coqBool(dep), c.Strs(decl))
+							// ... and each definition is the client's own: type, default value, directives
+							model += fmt.Sprintf(" && defs_agree %s %s %s %s", c.varDefTexts(op.VariableDefinitions), c.varDefTexts(st.QueryDocument.Operations[0].VariableDefinitions), coqBool(dep), c.Strs(sv))
 						}
 						for _, t := range st.Then {
 							walkSteps(t)
@@ -607,6 +631,20 @@ func runFed(cfg *runCfg, prop string) error {
 				unknown := fedRun(fed, q.Text, "NoSuchOperation", opVals)
 				c.Printf("Definition unk%d := %s.\n", id, c.observed(unknown, fed))
 				oracle = fmt.Sprintf("c17_holds exp%d obs%d red%d && (Nat.leb %d 1 || c17_unknown_name_holds unk%d)", id, id, id, len(parsed.Operations), id)
+				// ... and a name that is an operation's name only up to case names nothing
+				folded := strings.ToUpper(opName)
+				if folded == opName {
+					folded = strings.ToLower(opName)
+				}
+				isName := false
+				for _, o := range parsed.Operations {
+					isName = isName || o.Name == folded
+				}
+				if !isName && folded != opName {
+					unkc := fedRun(fed, q.Text, folded, opVals)
+					c.Printf("Definition unkc%d := %s.\n", id, c.observed(unkc, fed))
+					oracle += fmt.Sprintf(" && (Nat.leb %d 1 || c17_unknown_name_holds unkc%d)", len(parsed.Operations), id)
+				}
 				// the same QueryPlanList looked up again and again, as under the plan cache: every
 				// operation of the document, last to first and back, against its fresh-plan answer
 				if shared, perr := fed.Plan(q.Text); perr == nil && len(parsed.Operations) > 1 {
